@@ -374,6 +374,7 @@ func VHKeysValues() {
 	keys, vals := t.Keys(), t.Values()
 	v.EndOp()
 	v.Assert(len(keys) == t.Size(), "C15,C01:len-keys-is-size")
+	v.Assert(t.Root.Size() == t.Size(), "C07,C15:node-count-is-size")
 	v.Assert(len(vals) == t.Size(), "C15,C01:len-values-is-size")
 	for i := 1; i < len(keys); i++ {
 		v.Assert(vl.Less(keys[i-1], keys[i]), "C02,C01:keys-strictly-ascending")
@@ -404,6 +405,7 @@ var _ = vl.Less
 func vJSON(c *Tree[int, int]) containers.VJSON {
 	return containers.VJSON{C: c, ToJSON: c.ToJSON, FromJSON: c.FromJSON,
 		Marshal: func() ([]byte, error) { return json.Marshal(c) },
+		Unmarshal: func(data []byte) error { return json.Unmarshal(data, c) },
 		Inv:     func() { VInv(c) },
 		Step:    func() { k, x := v.Int("sk"), v.Int("sx"); c.Put(k, x); y, ok := c.Get(k); v.Assert(v.And(ok, y == x), "C12:put-after-load") },
 		Fresh:   func() containers.VJSON { return vJSON(NewWith[int, int](vl.Cmp)) },
